@@ -376,7 +376,10 @@ class Origins:
         if "promoted" in op:
             out = set()
             for c in op["promoted"]:
-                out |= self.of_operand(c)
+                if "agg" in c:
+                    out.add(("const", "variant", "%s::%s" % (c["agg"], c["variant"])))
+                else:
+                    out |= self.of_operand(c)
             out.add(("const", "promoted", op.get("const", "")))
             return out
         if "int" in op:
